@@ -198,3 +198,46 @@ V("C13", "dyr_bad_output_key", "violation", ("andes/io/psse-dyr.yaml", "        
 V("C13", "json_reader_skips_rows", "violation", ("andes/io/json.py", "        for row in dct:\n            system.add(name, row)", "        for row in dct[:1]:\n            system.__dict__[name].add(**row)"), rule="C13.roundtrip")
 V("C13", "add_keeps_uid", "violation", (SYSTEM, "        param_dict.pop('uid', None)\n", ""), rule="C13.roundtrip")
 V("C13", "benign_mpc_local_rename", "silent", (MPCF, "        vang = data[8] * deg2rad\n", "        vang = data[8] * deg2rad  # radians\n"))
+
+# ---------------- C14
+SNAP = "andes/utils/snapshot.py"
+V("C14", "run_always_inits", "violation", (TDS, "        if system.dae.t < 0:\n            self.init()\n        else:  # resume simulation\n            self.init_resume()", "        if system.dae.t <= 0:\n            self.init()\n        else:  # resume simulation\n            self.init_resume()"), rule="C14.resume")
+V("C14", "resume_rebuilds_schedule", "violation", (TDS, "        self.calc_h(resume=True)\n        dae.t += self.h", "        system.store_switch_times(system.exist.tds)\n        self.calc_h(resume=True)\n        dae.t += self.h"), rule="C14.resume")
+V("C14", "pbar_kept", "violation", (TDS, "        self.pbar.close()\n        self.pbar = None\n", "        self.pbar.close()\n"), rule="C14.resume")
+V("C14", "snapshot_no_strip", "violation", (SNAP, "    system.remove_pycapsule()\n", ""), rule="C14.snapshot")
+V("C14", "snapshot_fix_before_load", "violation", (SNAP, "    # point the \"view arrays\" to the correct memory\n    fix_view_arrays(system)\n", ""), rule="C14.snapshot")
+V("C14", "clear_keeps_factor", "violation", ("andes/linsolvers/suitesparse.py", "        self.F = None   # symbolic factorization\n        self.N = None   # numeric factorization\n        self.factorize = True\n        self.use_linsolve = False", "        self.F = None   # symbolic factorization\n        self.N = None   # numeric factorization\n        self.use_linsolve = False"), rule="C14.snapshot")
+V("C14", "benign_resume_log", "silent", (TDS, "        logger.debug(\"Resuming from t=%.4fs.\", system.dae.t)", "        logger.debug(\"Resuming from time t=%.6fs.\", system.dae.t)"))
+
+# ---------------- C15
+V("C15", "store_aliases_live_array", "violation", (DAEF, "            ts._xs[t] = np.array(self.x)\n            ts._ys[t] = np.array(self.y)", "            ts._xs[t] = self.x\n            ts._ys[t] = np.array(self.y)"), rule="C15.copy")
+V("C15", "txyz_order_swapped", "violation", (DAEF, "self.txyz = np.hstack((self.t.reshape((-1, 1)), self.x, self.y, self.z))", "self.txyz = np.hstack((self.t.reshape((-1, 1)), self.y, self.x, self.z))"), rule="C15.order")
+V("C15", "output_idx_unsorted", "violation", (SYSTEM, "        self.Output.xidx = sorted(np.unique(export_vars['x']))", "        self.Output.xidx = list(export_vars['x'])"), rule="C15.index")
+V("C15", "names_wrong_index_set", "violation", (DAEF, "            return [self.y_name[i] for i in self.system.Output.yidx]", "            return [self.y_name[i] for i in self.system.Output.xidx]"), rule="C15.index")
+V("C15", "store_rejected_steps", "violation", (TDS, "            if step_status:\n                if config.save_every != 0:", "            if True:\n                if config.save_every != 0:"), rule="C15.flow")
+V("C15", "offload_reset_first", "violation", (TDS, "                    # write to file if enabled\n                    if not system.files.no_output:\n                        self.save_output()", "                    dae.ts.reset()\n                    # write to file if enabled\n                    if not system.files.no_output:\n                        self.save_output()"), rule="C15.flow")
+V("C15", "csv_replay_off_by_one", "violation", (TDS, "            system.dae.x[:] = self.data_csv[self.k_csv, 1:system.dae.n + 1]", "            system.dae.x[:] = self.data_csv[self.k_csv, 0:system.dae.n]"), rule="C15.order")
+V("C15", "benign_store_copy_idiom", "silent", (DAEF, "            ts._xs[t] = np.array(self.x)\n            ts._ys[t] = np.array(self.y)", "            ts._xs[t] = self.x.copy()\n            ts._ys[t] = self.y.copy()"))
+
+# ---------------- C19
+GROUPF = "andes/models/group.py"
+V("C19", "group_add_no_duplicate_check", "violation", (GROUPF, "        if idx in self._idx2model:\n            raise KeyError(f'Group <{self.class_name}> already contains <{repr(idx)}> from '\n                           f'<{self._idx2model[idx].class_name}>')\n", ""), rule="C19.registry")
+V("C19", "next_idx_no_recheck", "violation", (GROUPF, "                if idx not in self._idx2model:\n                    break\n                else:\n                    count += 1", "                break"), rule="C19.registry")
+V("C19", "backref_not_reset", "violation", (SYSTEM, "                ref.v = [list() for _ in range(model.n)]", "                ref.v = ref.v if isinstance(ref.v, list) and len(ref.v) == model.n else [list() for _ in range(model.n)]"), rule="C19.backref")
+V("C19", "backref_dangling_remapped", "violation", (SYSTEM, "                        if dest_idx not in dest.uid:\n                            continue\n", "                        if dest_idx not in dest.uid:\n                            dest_idx = dest.idx.v[0]\n"), rule="C19.backref")
+V("C19", "param_link_error_ignored", "violation", (SYSTEM, "                                 instance.indexer.name, repr(e))\n                    ret = False", "                                 instance.indexer.name, repr(e))"), rule="C19.link-errors")
+V("C19", "extparam_swallows_keyerror", "violation", (PARAMF, "            try:\n                self.v = ext_model.get(src=self.src, idx=self.indexer.v, attr='v',\n                                       allow_none=self.allow_none, default=self.default)\n            except IndexError:\n                pass", "            try:\n                self.v = ext_model.get(src=self.src, idx=self.indexer.v, attr='v',\n                                       allow_none=self.allow_none, default=self.default)\n            except (IndexError, KeyError):\n                pass"), rule="C19.link-errors")
+V("C19", "system_add_registers_first", "violation", (SYSTEM, "        self.__dict__[model].add(idx=idx, **param_dict)\n        group.add(idx=idx, model=self.__dict__[model])", "        group.add(idx=idx, model=self.__dict__[model])\n        self.__dict__[model].add(idx=idx, **param_dict)"), rule="C19.registry")
+V("C19", "benign_add_comment", "silent", (SYSTEM, "        # remove `uid` field\n", "        # drop the exported `uid` column\n"))
+
+# ---------------- C20
+COMMONF = "andes/core/common.py"
+V("C20", "defaults_overwrite_loaded", "violation", (COMMONF, "            if key in self.__dict__:\n                continue\n\n            self._set(key, val)", "            self._set(key, val)"), rule="C20.precedence")
+V("C20", "model_adds_before_load", "violation", (MODEL, "        self.config = Config(name=self.class_name)  # `config` that can be exported\n        if config is not None:\n            self.config.load(config)\n", "        self.config = Config(name=self.class_name)  # `config` that can be exported\n"), (MODEL, "        self.calls = ModelCall()  # callback and LaTeX string storage", "        if config is not None:\n            self.config.load(config)\n\n        self.calls = ModelCall()  # callback and LaTeX string storage"), rule="C20.typestate")
+V("C20", "pflow_adds_before_super", "violation", (PFLOW, "        super().__init__(system, config)\n        self.config.add(", "        self.config = Config(self.class_name)\n        self.config.add("), rule="C20")
+V("C20", "coerce_float_first", "violation", (COMMONF, "            try:\n                val = int(val)\n            except ValueError:\n                try:\n                    val = float(val)\n                except ValueError:\n                    pass", "            try:\n                val = float(val)\n            except ValueError:\n                pass"), rule="C20.coercion")
+V("C20", "option_accepts_malformed", "violation", (SYSTEM, "            if item.count('=') != 1:\n                raise ValueError('config_option \"{}\" must be an assignment expression'.format(item))\n", "            if item.count('=') < 1:\n                continue\n"), rule="C20.options")
+V("C20", "option_merge_after_load", "violation", (SYSTEM, "        self._config_object = load_config_rc(self._config_path)\n        self._update_config_object()\n        self.config = Config(self.__class__.__name__, dct=config)\n        self.config.load(self._config_object)\n", "        self._config_object = load_config_rc(self._config_path)\n        self.config = Config(self.__class__.__name__, dct=config)\n        self.config.load(self._config_object)\n        self._update_config_object()\n"), rule="C20.options")
+V("C20", "alt_key_typo", "violation", (PFLOW, "                              check_conn=(0, 1),\n                              max_iter=\">=10\",", "                              check_con=(0, 1),\n                              max_iter=\">=10\","), rule="C20.tables")
+V("C20", "check_not_raising", "violation", (COMMONF, "            if val not in _alt:\n                raise ValueError(f\"[{self._name}].{key}={val} is not a choice from {_alt}.\")", "            if val not in _alt:\n                logger.warning(f\"[{self._name}].{key}={val} is not a choice from {_alt}.\")"), rule="C20.alternatives")
+V("C20", "benign_help_text", "silent", (PFLOW, "report=\"write output report\",", "report=\"write the output report\","))
